@@ -93,7 +93,7 @@ Proof.
 Qed.
 
 (* the two recorded findings: where the unconditional statement is false of the repaired code *)
-Definition ex3_file : file := mkFile [mkM 0 48 13004 0 None; mkM 48 104 13003 0 None; mkM 152 33 60001 3 None] 185.
+Definition ex3_file : file := mkFile [mkM 0 48 13004 0 None; mkM 48 40 13003 0 None; mkM 88 33 60001 3 None] 121.
 Lemma ex3_file_wf : wf_file ex3_file.
 Proof. unfold ex3_file. wf_by_computation. Qed.
 
